@@ -10,6 +10,7 @@ import Mathlib.Tactic.LinearCombination
 import Mathlib.Tactic.NormNum
 import Mathlib.Tactic.FieldSimp
 import Mathlib.Data.Real.Basic
+import Mathlib.Analysis.Real.Sqrt
 
 namespace Shelx.C20
 
@@ -408,6 +409,577 @@ theorem rot_params_ok (b dma t r : ℝ) (hr : r * r = t * t + 1) (hr0 : r ≠ 0)
 
 example : ((3:ℝ)/5) * (3/5) + (4/5) * (4/5) = 1 ∧ (((3:ℝ)/5) * (3/5) - (4/5) * (4/5)) * 12 - (3/5) * (4/5) * (-7) = 0 := by
   norm_num
+
+/-! ### the whole Jacobi iteration, with the rotation parameters the code computes (all inputs)
+
+  `jacobi_step_invariant` asks for `c² + s² = 1` and for the annihilation equation. Below they are discharged for the
+  `t`, `c`, `s` that `jacobi` itself computes, in EVERY branch: `fabs(b) > 0` false (no rotation), the `b / dma` branch (over
+  the reals never taken when `|b| > 0`), `q < 0`, `q > 0` and `q = 0` (equal diagonal elements: `t = +1`, a turn by 45
+  degrees — with `t = 0` there the element would be dropped without a rotation and the invariant would break).
+  Hence the invariant holds after any number of sweeps, the final column sort keeps `VᵀV = 1`, and `qtrfit` returns a
+  unit quaternion and a proper rotation for all inputs. `sqrt` is a parameter; only `sqrt x ≥ 0`, `sqrt x · sqrt x = x`
+  (for `x ≥ 0`) is used. -/
+
+noncomputable def rops (sqrt : ℝ → ℝ) : JOps ℝ :=
+  { abs := fun x => |x|, sqrt := sqrt, lt := fun a b => decide (a < b), le := fun a b => decide (a ≤ b),
+    isZero := fun a => decide (a = 0), half := 1 / 2, eps := 1 / 1000000000000 }
+
+def IsSqrt (sqrt : ℝ → ℝ) : Prop := ∀ x, 0 ≤ x → 0 ≤ sqrt x ∧ sqrt x * sqrt x = x
+
+theorem tangent_aux (a r : ℝ) (ha : 0 ≤ a) (hr : 0 < r) (hrr : r * r = 1 + a * a) :
+    (1 / (a + r)) * (1 / (a + r)) + 2 * a * (1 / (a + r)) - 1 = 0 := by
+  have hD : a + r ≠ 0 := by positivity
+  field_simp
+  nlinarith
+
+theorem code_tangent_root (sqrt : ℝ → ℝ) (hs : IsSqrt sqrt) (b dma : ℝ) (hb : b ≠ 0) :
+    b * (if 1 / 2 * dma / b < 0 then -(1 / (|1 / 2 * dma / b| + sqrt (1 + 1 / 2 * dma / b * (1 / 2 * dma / b))))
+          else 1 / (|1 / 2 * dma / b| + sqrt (1 + 1 / 2 * dma / b * (1 / 2 * dma / b))))
+      * (if 1 / 2 * dma / b < 0 then -(1 / (|1 / 2 * dma / b| + sqrt (1 + 1 / 2 * dma / b * (1 / 2 * dma / b))))
+          else 1 / (|1 / 2 * dma / b| + sqrt (1 + 1 / 2 * dma / b * (1 / 2 * dma / b))))
+      + dma * (if 1 / 2 * dma / b < 0 then -(1 / (|1 / 2 * dma / b| + sqrt (1 + 1 / 2 * dma / b * (1 / 2 * dma / b))))
+          else 1 / (|1 / 2 * dma / b| + sqrt (1 + 1 / 2 * dma / b * (1 / 2 * dma / b)))) - b = 0 := by
+  generalize hqd : 1 / 2 * dma / b = q
+  have hq : dma = 2 * q * b := by rw [← hqd]; field_simp
+  obtain ⟨hr0, hrr⟩ := hs (1 + q * q) (by nlinarith [mul_self_nonneg q])
+  generalize sqrt (1 + q * q) = r at hr0 hrr
+  have hrpos : 0 < r := by
+    rcases lt_or_eq_of_le hr0 with h | h
+    · exact h
+    · rw [← h] at hrr; nlinarith [mul_self_nonneg q]
+  have h0 := tangent_aux |q| r (abs_nonneg q) hrpos (by rw [hrr, abs_mul_abs_self])
+  by_cases hneg : q < 0
+  · rw [if_pos hneg, hq]
+    rw [abs_of_neg hneg] at h0 ⊢
+    linear_combination b * h0
+  · rw [if_neg hneg, hq]
+    rw [abs_of_nonneg (not_lt.mp hneg)] at h0 ⊢
+    linear_combination b * h0
+
+theorem rotIf_invariant (sqrt : ℝ → ℝ) (hs : IsSqrt sqrt) (n0 : Nat → Nat → ℝ) (i j : Nat) (hij : i < j) (hj : j < 4)
+    (st : JState ℝ) (hinv : JInv n0 st) : JInv n0 (rotIf (rops sqrt) i j st) := by
+  unfold rotIf
+  simp only [rops, decide_eq_true_eq]
+  by_cases hb : (0:ℝ) < |st.a i j|
+  · have hb0 : st.a i j ≠ 0 := abs_pos.mp hb
+    have hbranch : ¬ (|st.d j - st.d i| + |st.a i j| ≤ |st.d j - st.d i|) := by linarith
+    rw [if_pos hb, if_neg hbranch]
+    have ht := code_tangent_root sqrt hs (st.a i j) (st.d j - st.d i) hb0
+    generalize (if 1 / 2 * (st.d j - st.d i) / st.a i j < 0 then
+        -(1 / (|1 / 2 * (st.d j - st.d i) / st.a i j| + sqrt (1 + 1 / 2 * (st.d j - st.d i) / st.a i j * (1 / 2 * (st.d j - st.d i) / st.a i j))))
+      else 1 / (|1 / 2 * (st.d j - st.d i) / st.a i j| + sqrt (1 + 1 / 2 * (st.d j - st.d i) / st.a i j * (1 / 2 * (st.d j - st.d i) / st.a i j)))) = t at ht
+    obtain ⟨hr0, hrr⟩ := hs (t * t + 1) (by nlinarith [mul_self_nonneg t])
+    have hrne : sqrt (t * t + 1) ≠ 0 := by
+      intro h; rw [h] at hrr; nlinarith [mul_self_nonneg t]
+    obtain ⟨h1, h2⟩ := rot_params_ok (st.a i j) (st.d j - st.d i) t (sqrt (t * t + 1)) hrr hrne ht
+    exact jacobi_step_invariant n0 i j hij hj _ _ st h1 h2 hinv
+  · rw [if_neg hb]; exact hinv
+
+
+theorem foldl_inv {α β : Type} (P : β → Prop) (f : β → α → β) (l : List α) (b : β)
+    (h : ∀ x ∈ l, ∀ s, P s → P (f s x)) (hb : P b) : P (l.foldl f b) := by
+  induction l generalizing b with
+  | nil => exact hb
+  | cons x t ih =>
+    simp only [List.foldl_cons]
+    exact ih _ (fun y hy s hs => h y (List.mem_cons_of_mem _ hy) s hs) (h x (List.mem_cons_self ..) b hb)
+
+theorem sweep_invariant (sqrt : ℝ → ℝ) (hs : IsSqrt sqrt) (n0 : Nat → Nat → ℝ) (st : JState ℝ) (hinv : JInv n0 st) :
+    JInv n0 (sweep (rops sqrt) st) := by
+  unfold sweep
+  apply foldl_inv (JInv n0) _ _ _ _ hinv
+  intro j hjm s hsI
+  have hj : j < 4 := by
+    have := List.mem_range'_1.mp hjm; omega
+  apply foldl_inv (JInv n0) _ _ _ _ hsI
+  intro i him s' hs'
+  exact rotIf_invariant sqrt hs n0 i j (List.mem_range.mp him) hj s' hs'
+
+theorem jacobiLoop_invariant (sqrt : ℝ → ℝ) (hs : IsSqrt sqrt) (n0 : Nat → Nat → ℝ) (fuel : Nat) (st st' : JState ℝ)
+    (hinv : JInv n0 st) (h : jacobiLoop (rops sqrt) fuel st = some st') : JInv n0 st' := by
+  induction fuel generalizing st with
+  | zero => simp only [jacobiLoop, Option.some.injEq] at h; exact h ▸ hinv
+  | succ n ih =>
+    unfold jacobiLoop at h
+    simp only at h
+    split at h
+    · simp only [Option.some.injEq] at h; exact h ▸ hinv
+    · exact ih _ (sweep_invariant sqrt hs n0 st hinv) h
+
+/-- the start of `jacobi`: `eigenvect` = unit matrix, `eigenval` = the diagonal -/
+theorem jacobi_init_invariant (n : S4 ℝ) :
+    JInv (symOf (matOfS4 n) ⟨fun j => matOfS4 n j j⟩)
+      { a := matOfS4 n, v := ⟨fun r c => if r = c then 1 else 0⟩, d := ⟨fun j => matOfS4 n j j⟩ } := by
+  constructor
+  · intro r k hr hk
+    interval_cases r <;> interval_cases k <;> simp [mul4, tr4]
+  · intro r k hr hk
+    interval_cases r <;> interval_cases k <;> simp [mul4, tr4, delta4]
+
+
+/-- `VᵀV = 1` -/
+def Orth (v : Mat ℝ) : Prop := ∀ r k, r < 4 → k < 4 → mul4 (tr4 (fun p q => v p q)) (fun p q => v p q) r k = delta4 r k
+
+theorem swapCols_orth (v : Mat ℝ) (k j : Nat) (hjk : j < k) (hk : k < 4) (h : Orth v) : Orth (swapCols v k j) := by
+  intro r c hr hc
+  have e : ∀ p, p < 4 → ∀ x, x < 4 → swapCols v k j p x = v p (if x = k then j else if x = j then k else x) :=
+    fun p hp x hx => swapCols_entry v k j hjk hk p x hp hx
+  simp only [mul4, tr4, e 0 (by omega) r hr, e 1 (by omega) r hr, e 2 (by omega) r hr, e 3 (by omega) r hr,
+    e 0 (by omega) c hc, e 1 (by omega) c hc, e 2 (by omega) c hc, e 3 (by omega) c hc]
+  have hj4 : j < 4 := by omega
+  have := h (if r = k then j else if r = j then k else r) (if c = k then j else if c = j then k else c)
+    (by split <;> [omega; (split <;> omega)]) (by split <;> [omega; (split <;> omega)])
+  simp only [mul4, tr4] at this
+  rw [this]
+  simp only [delta4]
+  split_ifs <;> first | rfl | omega
+
+
+theorem sortEig_orth (ops : JOps ℝ) (st : JState ℝ) (h : Orth st.v) : Orth (sortEig ops st).v := by
+  unfold sortEig
+  apply foldl_inv (fun s : JState ℝ => Orth s.v) _ _ _ _ h
+  intro j hjm s hs
+  have hj : j < 3 := List.mem_range.mp hjm
+  have hk : ((List.range' (j + 1) (4 - (j + 1))).foldl (fun (kd : Nat × ℝ) i =>
+      if ops.lt (s.d i) kd.2 then (i, s.d i) else kd) (j, s.d j)).1 < 4 := by
+    apply foldl_inv (fun kd : Nat × ℝ => kd.1 < 4)
+    · intro i him kd hkd
+      have := List.mem_range'_1.mp him
+      split
+      · show i < 4; omega
+      · exact hkd
+    · show j < 4; omega
+  simp only
+  split
+  · rename_i hgt
+    exact swapCols_orth s.v _ j hgt hk hs
+  · exact hs
+
+/-- **jacobi_orthonormal**: for EVERY symmetric 4×4 input and every sweep limit the matrix of eigenvectors that `jacobi`
+    returns is orthogonal — whatever the branch taken at each element (equal diagonal elements, q = 0, included) -/
+theorem jacobi_orthonormal (sqrt : ℝ → ℝ) (hs : IsSqrt sqrt) (n : S4 ℝ) (maxsweeps : Nat) (st : JState ℝ)
+    (h : jacobi (rops sqrt) n maxsweeps = some st) : Orth st.v := by
+  unfold jacobi at h
+  simp only [Option.map_eq_some_iff] at h
+  obtain ⟨st0, h0, rfl⟩ := h
+  exact sortEig_orth _ _ (jacobiLoop_invariant sqrt hs _ maxsweeps _ st0 (jacobi_init_invariant n) h0).2
+
+/-- **qtrfit_proper**: over the reals `qtrfit` returns a unit quaternion and a proper rotation for ALL inputs
+    (any two point lists, any number of sweeps) -/
+theorem qtrfit_proper (sqrt : ℝ → ℝ) (hs : IsSqrt sqrt) (src tgt : List (P3 ℝ)) (maxsweeps : Nat) (q : Q4 ℝ) (u : M3 ℝ)
+    (h : qtrfit (rops sqrt) src tgt maxsweeps = some (q, u)) : qnorm2 q = 1 ∧ IsProper u := by
+  unfold qtrfit at h
+  split at h
+  · exact absurd h (by simp)
+  · rename_i n _
+    split at h
+    · exact absurd h (by simp)
+    · rename_i st hst
+      simp only [Option.some.injEq, Prod.mk.injEq] at h
+      obtain ⟨rfl, rfl⟩ := h
+      have ho := jacobi_orthonormal sqrt hs n maxsweeps st hst 3 3 (by omega) (by omega)
+      have hq : qnorm2 (⟨st.v 0 3, st.v 1 3, st.v 2 3, st.v 3 3⟩ : Q4 ℝ) = 1 := by
+        simp only [mul4, tr4, delta4] at ho
+        simp only [qnorm2]
+        simpa using ho
+      exact ⟨hq, qtrfit_matrix_proper _ hq⟩
+
+/-! ### the unit of length does not matter (all inputs)
+
+  The property is invariant under a change of the unit of length. For the model this is a theorem: every comparison
+  `jacobi` makes — `fabs(b) > 0`, `fabs(dma) + fabs(b) <= fabs(dma)`, `q < 0`, the convergence test
+  `onorm <= 1e-12 * dnorm`, the comparisons of the final sort — is homogeneous, so multiplying the 4×4 form by `k > 0`
+  multiplies `matrix`/`eigenval` by `k` in every state and leaves `eigenvect` as it is. (A convergence test with an absolute
+  floor, `1e-12 * max(dnorm, 1.0)`, is not homogeneous and would not pass `jacobiLoop_sc`.) -/
+
+def scM (k : ℝ) (a : Mat ℝ) : Mat ℝ := ⟨fun r c => k * a r c⟩
+def scV (k : ℝ) (d : Vec ℝ) : Vec ℝ := ⟨fun i => k * d i⟩
+def scSt (k : ℝ) (st : JState ℝ) : JState ℝ := { a := scM k st.a, v := st.v, d := scV k st.d }
+
+theorem upd_sc (k : ℝ) (a : Mat ℝ) (r c : Nat) (x y : ℝ) (h : y = k * x) : upd (scM k a) r c y = scM k (upd a r c x) := by
+  subst h
+  simp only [upd, scM]
+  congr 1
+  funext r' c'
+  split <;> rfl
+
+theorem updV_sc (k : ℝ) (d : Vec ℝ) (i : Nat) (x y : ℝ) (h : y = k * x) : updV (scV k d) i y = scV k (updV d i x) := by
+  subst h
+  simp only [updV, scV]
+  congr 1
+  funext i'
+  split <;> rfl
+
+theorem foldl_comm {α β : Type} (g : β → β) (f : β → α → β) (l : List α) (b : β)
+    (h : ∀ s x, f (g s) x = g (f s x)) : l.foldl f (g b) = g (l.foldl f b) := by
+  induction l generalizing b with
+  | nil => rfl
+  | cons x t ih => simp only [List.foldl_cons]; rw [h, ih]
+
+theorem scM_apply (k : ℝ) (a : Mat ℝ) (r c : Nat) : (scM k a) r c = k * a r c := rfl
+theorem scV_apply (k : ℝ) (d : Vec ℝ) (i : Nat) : (scV k d) i = k * d i := rfl
+
+theorem jacobiRot_sc (k : ℝ) (i j : Nat) (c s b : ℝ) (st : JState ℝ) :
+    jacobiRot i j c s (k * b) (scSt k st) = scSt k (jacobiRot i j c s b st) := by
+  unfold jacobiRot
+  simp only [scSt]
+  have h0 : upd (scM k st.a) i j 0 = scM k (upd st.a i j 0) := upd_sc k _ _ _ _ _ (by ring)
+  rw [h0]
+  congr 1
+  · rw [foldl_comm (scM k), foldl_comm (scM k), foldl_comm (scM k)] <;>
+    · intro a x
+      simp only [scM, upd, Mat.mk.injEq]
+      funext r' c'
+      split_ifs <;> ring
+  · simp only [scV_apply]
+    rw [updV_sc k st.d j (s * s * st.d i + c * c * st.d j + 2 * c * s * b) _ (by ring)]
+    rw [updV_sc k _ i (c * c * st.d i + s * s * st.d j - 2 * c * s * b) _ (by ring)]
+
+
+theorem rotIf_sc (sqrt : ℝ → ℝ) (k : ℝ) (hk : 0 < k) (i j : Nat) (st : JState ℝ) :
+    rotIf (rops sqrt) i j (scSt k st) = scSt k (rotIf (rops sqrt) i j st) := by
+  have hk0 : k ≠ 0 := ne_of_gt hk
+  have hd : (scSt k st).d j - (scSt k st).d i = k * (st.d j - st.d i) := by
+    show k * st.d j - k * st.d i = _; ring
+  have hb : (scSt k st).a i j = k * st.a i j := rfl
+  have habs : ∀ x : ℝ, |k * x| = k * |x| := fun x => by rw [abs_mul, abs_of_pos hk]
+  unfold rotIf
+  simp only [rops, decide_eq_true_eq, hd, hb, habs]
+  have e1 : (0 < k * |st.a i j|) ↔ (0 < |st.a i j|) := by
+    constructor
+    · intro h; by_contra h'; nlinarith [abs_nonneg (st.a i j)]
+    · intro h; positivity
+  have e2 : (k * |st.d j - st.d i| + k * |st.a i j| ≤ k * |st.d j - st.d i|) ↔
+      (|st.d j - st.d i| + |st.a i j| ≤ |st.d j - st.d i|) := by
+    constructor
+    · intro h; nlinarith
+    · intro h; nlinarith
+  have e3 : k * st.a i j / (k * (st.d j - st.d i)) = st.a i j / (st.d j - st.d i) := mul_div_mul_left _ _ hk0
+  have e4 : 1 / 2 * (k * (st.d j - st.d i)) / (k * st.a i j) = 1 / 2 * (st.d j - st.d i) / st.a i j := by
+    rw [mul_left_comm, mul_div_mul_left _ _ hk0]
+  simp only [e1, e2, e3, e4]
+  split
+  · exact jacobiRot_sc k i j _ _ _ st
+  · rfl
+
+theorem sweep_sc (sqrt : ℝ → ℝ) (k : ℝ) (hk : 0 < k) (st : JState ℝ) :
+    sweep (rops sqrt) (scSt k st) = scSt k (sweep (rops sqrt) st) := by
+  unfold sweep
+  apply foldl_comm
+  intro s j
+  apply foldl_comm
+  intro s' i
+  exact rotIf_sc sqrt k hk i j s'
+
+theorem norms_sc (sqrt : ℝ → ℝ) (k : ℝ) (hk : 0 < k) (st : JState ℝ) :
+    norms (rops sqrt) (scSt k st) = (k * (norms (rops sqrt) st).1, k * (norms (rops sqrt) st).2) := by
+  have habs : ∀ x : ℝ, |k * x| = k * |x| := fun x => by rw [abs_mul, abs_of_pos hk]
+  have inner : ∀ (l : List Nat) (j : Nat) (on : ℝ),
+      l.foldl (fun on i => on + (rops sqrt).abs ((scSt k st).a i j)) (k * on)
+        = k * l.foldl (fun on i => on + (rops sqrt).abs (st.a i j)) on := by
+    intro l j
+    induction l with
+    | nil => intro on; rfl
+    | cons x t ih =>
+      intro on
+      simp only [List.foldl_cons]
+      rw [← ih]
+      congr 1
+      show k * on + |k * st.a x j| = k * (on + |st.a x j|)
+      rw [habs]; ring
+  have outer : ∀ (l : List Nat) (acc : ℝ × ℝ),
+      l.foldl (fun (acc : ℝ × ℝ) j =>
+          (acc.1 + (rops sqrt).abs ((scSt k st).d j),
+           (List.range j).foldl (fun on i => on + (rops sqrt).abs ((scSt k st).a i j)) acc.2)) (k * acc.1, k * acc.2)
+        = (k * (l.foldl (fun (acc : ℝ × ℝ) j =>
+          (acc.1 + (rops sqrt).abs (st.d j),
+           (List.range j).foldl (fun on i => on + (rops sqrt).abs (st.a i j)) acc.2)) acc).1,
+           k * (l.foldl (fun (acc : ℝ × ℝ) j =>
+          (acc.1 + (rops sqrt).abs (st.d j),
+           (List.range j).foldl (fun on i => on + (rops sqrt).abs (st.a i j)) acc.2)) acc).2) := by
+    intro l
+    induction l with
+    | nil => intro acc; rfl
+    | cons x t ih =>
+      intro acc
+      simp only [List.foldl_cons]
+      rw [← ih]
+      congr 2
+      · show k * acc.1 + |k * st.d x| = k * (acc.1 + |st.d x|)
+        rw [habs]; ring
+      · exact inner _ _ _
+  have := outer (List.range 4) (0, 0)
+  simp only [mul_zero] at this
+  exact this
+
+
+theorem jacobiLoop_sc (sqrt : ℝ → ℝ) (k : ℝ) (hk : 0 < k) (fuel : Nat) (st : JState ℝ) :
+    jacobiLoop (rops sqrt) fuel (scSt k st) = (jacobiLoop (rops sqrt) fuel st).map (scSt k) := by
+  induction fuel generalizing st with
+  | zero => rfl
+  | succ n ih =>
+    unfold jacobiLoop
+    simp only [norms_sc sqrt k hk]
+    have e : (rops sqrt).le (k * (norms (rops sqrt) st).2) ((rops sqrt).eps * (k * (norms (rops sqrt) st).1))
+        = (rops sqrt).le (norms (rops sqrt) st).2 ((rops sqrt).eps * (norms (rops sqrt) st).1) := by
+      show decide _ = decide _
+      apply decide_eq_decide.mpr
+      rw [mul_left_comm]
+      exact mul_le_mul_iff_right₀ hk
+    rw [e]
+    split
+    · rfl
+    · rw [sweep_sc sqrt k hk, ih]
+
+theorem sortEig_sc (sqrt : ℝ → ℝ) (k : ℝ) (hk : 0 < k) (st : JState ℝ) :
+    sortEig (rops sqrt) (scSt k st) = scSt k (sortEig (rops sqrt) st) := by
+  unfold sortEig
+  apply foldl_comm
+  intro s j
+  have sel : ∀ (l : List Nat) (kd : Nat × ℝ),
+      l.foldl (fun (kd : Nat × ℝ) i => if (rops sqrt).lt ((scSt k s).d i) kd.2 then (i, (scSt k s).d i) else kd) (kd.1, k * kd.2)
+        = ((l.foldl (fun (kd : Nat × ℝ) i => if (rops sqrt).lt (s.d i) kd.2 then (i, s.d i) else kd) kd).1,
+           k * (l.foldl (fun (kd : Nat × ℝ) i => if (rops sqrt).lt (s.d i) kd.2 then (i, s.d i) else kd) kd).2) := by
+    intro l
+    induction l with
+    | nil => intro kd; rfl
+    | cons x t ih =>
+      intro kd
+      simp only [List.foldl_cons]
+      have e : (rops sqrt).lt ((scSt k s).d x) (k * kd.2) = (rops sqrt).lt (s.d x) kd.2 := by
+        show decide (k * s.d x < k * kd.2) = decide (s.d x < kd.2)
+        exact decide_eq_decide.mpr (mul_lt_mul_iff_right₀ hk)
+      rw [e]
+      split
+      · exact ih (x, s.d x)
+      · exact ih kd
+  have := sel (List.range' (j + 1) (4 - (j + 1))) (j, s.d j)
+  simp only
+  rw [show ((j, (scSt k s).d j) : Nat × ℝ) = (j, k * s.d j) from rfl, this]
+  simp only
+  split
+  · simp only [scSt, JState.mk.injEq, true_and]
+    rw [updV_sc k s.d _ (s.d j) ((scV k s.d).f j) rfl, updV_sc k _ j _ _ rfl]
+  · rfl
+
+
+def scS (k : ℝ) (n : S4 ℝ) : S4 ℝ :=
+  ⟨k * n.n00, k * n.n01, k * n.n02, k * n.n03, k * n.n11, k * n.n12, k * n.n13, k * n.n22, k * n.n23, k * n.n33⟩
+
+/-- the same points in another unit of length -/
+def scP (k : ℝ) (p : P3 ℝ) : P3 ℝ := ⟨k * p.x, k * p.y, k * p.z⟩
+
+theorem matOfS4_sc (k : ℝ) (n : S4 ℝ) : matOfS4 (scS k n) = scM k (matOfS4 n) := by
+  simp only [matOfS4, scM, Mat.mk.injEq]
+  funext r c
+  split <;> simp [scS]
+
+theorem jacobi_sc (sqrt : ℝ → ℝ) (k : ℝ) (hk : 0 < k) (n : S4 ℝ) (m : Nat) :
+    jacobi (rops sqrt) (scS k n) m = (jacobi (rops sqrt) n m).map (scSt k) := by
+  unfold jacobi
+  simp only [matOfS4_sc]
+  have := jacobiLoop_sc sqrt k hk m
+    { a := matOfS4 n, v := ⟨fun r c => if r = c then 1 else 0⟩, d := ⟨fun j => matOfS4 n j j⟩ }
+  simp only [scSt] at this
+  rw [show (⟨fun j => (scM k (matOfS4 n)) j j⟩ : Vec ℝ) = scV k ⟨fun j => matOfS4 n j j⟩ from rfl, this]
+  simp only [Option.map_map]
+  congr 1
+  funext st
+  exact sortEig_sc sqrt k hk st
+
+theorem corr_sc (k : ℝ) (l : List (P3 ℝ × P3 ℝ)) (a : Acc9 ℝ) :
+    qformOf ((l.map fun p => (scP k p.1, scP k p.2)).foldl corrStep
+      ⟨k * k * a.xxyx, k * k * a.xxyy, k * k * a.xxyz, k * k * a.xyyx, k * k * a.xyyy, k * k * a.xyyz, k * k * a.xzyx, k * k * a.xzyy, k * k * a.xzyz⟩)
+      = scS (k * k) (qformOf (l.foldl corrStep a)) := by
+  induction l generalizing a with
+  | nil => simp only [List.map_nil, List.foldl_nil, qformOf, scS, S4.mk.injEq]; refine ⟨?_, ?_, ?_, ?_, ?_, ?_, ?_, ?_, ?_, ?_⟩ <;> ring
+  | cons p t ih =>
+    simp only [List.map_cons, List.foldl_cons]
+    rw [← ih]
+    congr 2
+    simp only [corrStep, scP, Acc9.mk.injEq]
+    refine ⟨?_, ?_, ?_, ?_, ?_, ?_, ?_, ?_, ?_⟩ <;> ring
+
+theorem qform_sc (k : ℝ) (src tgt : List (P3 ℝ)) :
+    qform (src.map (scP k)) (tgt.map (scP k)) = (qform src tgt).map (scS (k * k)) := by
+  unfold qform
+  simp only [List.length_map]
+  split
+  · simp only [Option.map_some, Option.some.injEq, qformPairs, corr]
+    have := corr_sc k (src.zip tgt) acc0
+    simp only [acc0, mul_zero] at this
+    rw [List.zip_map]
+    exact this
+  · rfl
+
+/-- **qtrfit_scale_invariant**: the fit does not depend on the unit of length — for every `k > 0`, `qtrfit` on the
+    point sets multiplied by `k` returns the SAME quaternion and the SAME matrix (all inputs, all sweep limits; every
+    comparison `jacobi` makes is homogeneous, in particular the convergence test `onorm <= 1e-12 * dnorm`) -/
+theorem qtrfit_scale_invariant (sqrt : ℝ → ℝ) (k : ℝ) (hk : 0 < k) (src tgt : List (P3 ℝ)) (m : Nat) :
+    qtrfit (rops sqrt) (src.map (scP k)) (tgt.map (scP k)) m = qtrfit (rops sqrt) src tgt m := by
+  unfold qtrfit
+  rw [qform_sc]
+  cases qform src tgt with
+  | none => rfl
+  | some n =>
+    simp only [Option.map_some]
+    rw [jacobi_sc sqrt (k * k) (by positivity)]
+    cases jacobi (rops sqrt) n m with
+    | none => rfl
+    | some st => rfl
+
+
+/-! fit_fragment in another unit of length -/
+
+theorem sqrt_scale (sqrt : ℝ → ℝ) (hs : IsSqrt sqrt) (k x : ℝ) (hk : 0 ≤ k) (hx : 0 ≤ x) : sqrt (k * k * x) = k * sqrt x := by
+  obtain ⟨h1, h2⟩ := hs x hx
+  obtain ⟨h3, h4⟩ := hs (k * k * x) (by positivity)
+  generalize sqrt (k * k * x) = b at h3 h4 ⊢
+  generalize sqrt x = a at h1 h2 ⊢
+  have h5 : 0 ≤ k * a := mul_nonneg hk h1
+  have h6 : (b - k * a) * (b + k * a) = 0 := by
+    have : (k * a) * (k * a) = k * k * x := by rw [← h2]; ring
+    linear_combination h4 - this
+  rcases mul_eq_zero.mp h6 with h | h
+  · linarith
+  · have e1 : b = 0 := by linarith
+    have e2 : k * a = 0 := by linarith
+    rw [e1, e2]
+
+theorem centroid_foldl_sc (k : ℝ) (pts : List (P3 ℝ)) (a : P3 ℝ × ℝ) :
+    (pts.map (scP k)).foldl (fun (a : P3 ℝ × ℝ) p => ((⟨a.1.x + p.x, a.1.y + p.y, a.1.z + p.z⟩ : P3 ℝ), a.2 + 1)) (scP k a.1, a.2)
+      = (scP k (pts.foldl (fun (a : P3 ℝ × ℝ) p => ((⟨a.1.x + p.x, a.1.y + p.y, a.1.z + p.z⟩ : P3 ℝ), a.2 + 1)) a).1,
+         (pts.foldl (fun (a : P3 ℝ × ℝ) p => ((⟨a.1.x + p.x, a.1.y + p.y, a.1.z + p.z⟩ : P3 ℝ), a.2 + 1)) a).2) := by
+  induction pts generalizing a with
+  | nil => rfl
+  | cons p t ih =>
+    simp only [List.map_cons, List.foldl_cons]
+    rw [← ih]
+    congr 2
+    simp only [scP, P3.mk.injEq]
+    refine ⟨?_, ?_, ?_⟩ <;> ring
+
+theorem centroid_sc (isZero : ℝ → Bool) (k : ℝ) (pts : List (P3 ℝ)) :
+    centroid isZero (pts.map (scP k)) = (centroid isZero pts).map (scP k) := by
+  unfold centroid
+  have := centroid_foldl_sc k pts (⟨0, 0, 0⟩, 0)
+  simp only [scP, mul_zero] at this
+  simp only [this]
+  split
+  · rfl
+  · simp only [Option.map_some, Option.some.injEq, scP, P3.mk.injEq]
+    refine ⟨?_, ?_, ?_⟩ <;> ring
+
+theorem minusVect_sc (k : ℝ) (l : List (P3 ℝ)) (v : P3 ℝ) : minusVect (l.map (scP k)) (scP k v) = (minusVect l v).map (scP k) := by
+  simp only [minusVect, List.map_map]
+  apply List.map_congr_left
+  intro p _
+  simp only [Function.comp, scP, P3.mk.injEq]
+  refine ⟨?_, ?_, ?_⟩ <;> ring
+
+theorem plusVect_sc (k : ℝ) (l : List (P3 ℝ)) (v : P3 ℝ) : plusVect (l.map (scP k)) (scP k v) = (plusVect l v).map (scP k) := by
+  simp only [plusVect, List.map_map]
+  apply List.map_congr_left
+  intro p _
+  simp only [Function.comp, scP, P3.mk.injEq]
+  refine ⟨?_, ?_, ?_⟩ <;> ring
+
+theorem rotmol_sc (k : ℝ) (l : List (P3 ℝ)) (u : M3 ℝ) : rotmol (l.map (scP k)) u = (rotmol l u).map (scP k) := by
+  simp only [rotmol, List.map_map]
+  apply List.map_congr_left
+  intro p _
+  simp only [Function.comp, scP, rotPoint, P3.mk.injEq]
+  refine ⟨?_, ?_, ?_⟩ <;> ring
+
+theorem sum_map_scale {α : Type} (c : ℝ) (f g : α → ℝ) (l : List α) (h : ∀ x, g x = c * f x) :
+    (l.map g).sum = c * (l.map f).sum := by
+  induction l with
+  | nil => simp
+  | cons x t ih => simp only [List.map_cons, List.sum_cons, ih, h]; ring
+
+theorem ssd_sc (k : ℝ) (v w : List (P3 ℝ)) : ssd ((v.map (scP k)).zip (w.map (scP k))) = k * k * ssd (v.zip w) := by
+  rw [ssd_eq_sum, ssd_eq_sum, List.zip_map, List.map_map]
+  apply sum_map_scale
+  intro p
+  simp only [Function.comp, Prod.map, scP, dist2]
+  ring
+
+theorem rmsd_sc (sqrt : ℝ → ℝ) (hs : IsSqrt sqrt) (k : ℝ) (hk : 0 ≤ k) (v w : List (P3 ℝ)) :
+    rmsd sqrt (v.map (scP k)) (w.map (scP k)) = (rmsd sqrt v w).map (k * ·) := by
+  cases v with
+  | nil => rfl
+  | cons p t =>
+    simp only [rmsd, List.map_cons, Option.map_some, Option.some.injEq]
+    have := ssd_sc k (p :: t) w
+    simp only [List.map_cons] at this
+    rw [this, lenK_eq, lenK_eq]
+    simp only [List.length_cons, List.length_map]
+    rw [mul_div_assoc]
+    apply sqrt_scale sqrt hs k _ hk
+    exact div_nonneg (ssd_nonneg _) (by positivity)
+
+/-- **fit_fragment_scale_equivariant**: `fit_fragment` in another unit of length (every coordinate multiplied by
+    `k > 0`) returns the same placement in that unit and `k` times the RMSD — for any rotation finder that is itself
+    independent of the unit (`qtrfit` is: `qtrfit_scale_invariant`). This is why the check may judge every deviation
+    relative to the size of the point set, from 1e-10 to 1e+6. -/
+theorem fit_fragment_scale_equivariant (isZero : ℝ → Bool) (sqrt : ℝ → ℝ) (hs : IsSqrt sqrt)
+    (fit : List (P3 ℝ) → List (P3 ℝ) → Option (M3 ℝ)) (k : ℝ) (hk : 0 < k)
+    (hfit : ∀ p q, fit (p.map (scP k)) (q.map (scP k)) = fit p q) (frag src tgt : List (P3 ℝ)) :
+    fitFragment isZero sqrt fit (frag.map (scP k)) (src.map (scP k)) (tgt.map (scP k))
+      = (fitFragment isZero sqrt fit frag src tgt).map fun r => (r.1.map (scP k), k * r.2) := by
+  unfold fitFragment
+  rw [centroid_sc, centroid_sc]
+  cases centroid isZero src with
+  | none => rfl
+  | some pc =>
+    cases centroid isZero tgt with
+    | none => rfl
+    | some qc =>
+      simp only [Option.map_some]
+      rw [minusVect_sc, minusVect_sc, minusVect_sc, hfit]
+      cases fit (minusVect src pc) (minusVect tgt qc) with
+      | none => rfl
+      | some u =>
+        simp only
+        rw [rotmol_sc, rotmol_sc, plusVect_sc, rmsd_sc sqrt hs k hk.le]
+        cases rmsd sqrt (minusVect tgt qc) (rotmol (minusVect src pc) u) with
+        | none => rfl
+        | some r => rfl
+
+/-- the rotation finder `fit_fragment` uses: `qtrfit(p, q, 30)[1]` -/
+noncomputable def fitR (sqrt : ℝ → ℝ) (p q : List (P3 ℝ)) : Option (M3 ℝ) := (qtrfit (rops sqrt) p q 30).map (·.2)
+
+theorem fit_fragment_unit_free (isZero : ℝ → Bool) (sqrt : ℝ → ℝ) (hs : IsSqrt sqrt) (k : ℝ) (hk : 0 < k)
+    (frag src tgt : List (P3 ℝ)) :
+    fitFragment isZero sqrt (fitR sqrt) (frag.map (scP k)) (src.map (scP k)) (tgt.map (scP k))
+      = (fitFragment isZero sqrt (fitR sqrt) frag src tgt).map fun r => (r.1.map (scP k), k * r.2) :=
+  fit_fragment_scale_equivariant isZero sqrt hs (fitR sqrt) k hk
+    (fun p q => by simp only [fitR, qtrfit_scale_invariant sqrt k hk]) frag src tgt
+
+/-- **fit_fragment_rigid**: for ALL inputs on which it returns, `fit_fragment` moves the fragment by a proper rigid
+    motion `p ↦ R(p − p̄) + t̄` (`R` proper, `p̄`/`t̄` the centroids of the source/target atoms) -/
+theorem fit_fragment_rigid (isZero : ℝ → Bool) (sqrt : ℝ → ℝ) (hs : IsSqrt sqrt) (frag src tgt out : List (P3 ℝ)) (rms : ℝ)
+    (h : fitFragment isZero sqrt (fitR sqrt) frag src tgt = some (out, rms)) :
+    ∃ pc qc r, centroid isZero src = some pc ∧ centroid isZero tgt = some qc ∧ IsProper r ∧
+      out = frag.map (placeSpec r pc qc) ∧ rmsd sqrt tgt (src.map (placeSpec r pc qc)) = some rms := by
+  obtain ⟨pc, qc, u, hpc, hqc, hu, hout, hrms⟩ := fit_fragment_places isZero sqrt (fitR sqrt) frag src tgt out rms h
+  refine ⟨pc, qc, transpose u, hpc, hqc, ?_, hout, hrms⟩
+  simp only [fitR, Option.map_eq_some_iff] at hu
+  obtain ⟨⟨q, u'⟩, hq, rfl⟩ := hu
+  have hp := (qtrfit_proper sqrt hs _ _ 30 q u' hq).2
+  obtain ⟨h1, h2, h3⟩ := hp
+  refine ⟨h2, ?_, ?_⟩
+  · simpa [transpose] using h1
+  · rw [← h3]; simp only [det3, transpose]; ring
+
+/-- the hypothesis `IsSqrt` is met by the real square root -/
+theorem isSqrt_real : IsSqrt Real.sqrt := fun x hx => ⟨Real.sqrt_nonneg x, Real.mul_self_sqrt hx⟩
+
+example (src tgt : List (P3 ℝ)) (q : Q4 ℝ) (u : M3 ℝ) (h : qtrfit (rops Real.sqrt) src tgt 30 = some (q, u)) : IsProper u :=
+  (qtrfit_proper Real.sqrt isSqrt_real src tgt 30 q u h).2
+
+example (src tgt : List (P3 ℝ)) : qtrfit (rops Real.sqrt) (src.map (scP (1 / 10000000000))) (tgt.map (scP (1 / 10000000000))) 30
+    = qtrfit (rops Real.sqrt) src tgt 30 := qtrfit_scale_invariant Real.sqrt _ (by norm_num) src tgt 30
 
 /-! ### the code as found (snapshot b553572): witness of the two defects, exact arithmetic over `Rat`
 
